@@ -205,14 +205,29 @@ def run_derive(seed, n):
     return lines[0::2], lines[1::2], None
 
 
-def run_driver(cases):
+def run_driver(cases, budget=None):
+    """Run cases through the Lean driver. The model is executable but not fast: a case whose
+    evaluation takes very long (a loop the limits allow to run a billion times) must not hang the
+    check - on a time-out the batch is bisected down to the case, which gets `driver-timeout`."""
+    if not cases:
+        return []
     inp = ("\n".join(cases) + "\n").encode()
-    p = subprocess.run([DRIVER], input=inp, stdout=subprocess.PIPE, stderr=subprocess.PIPE)
+    if budget is None:
+        budget = 300 + len(cases) // 20
+    try:
+        p = subprocess.run([DRIVER], input=inp, stdout=subprocess.PIPE, stderr=subprocess.PIPE, timeout=budget)
+    except subprocess.TimeoutExpired:
+        if len(cases) == 1:
+            return ["driver-timeout"]
+        h = len(cases) // 2
+        return run_driver(cases[:h], max(60, budget // 2)) + run_driver(cases[h:], max(60, budget // 2))
     lines = p.stdout.decode(errors="replace").split("\n")
     if lines and lines[-1] == "":
         lines.pop()
     if len(lines) < len(cases):
-        lines.extend(["driver-died"] * (len(cases) - len(lines)))
+        # the driver stopped (stack overflow, out of memory) at case len(lines): mark it, go on
+        k = len(lines)
+        return lines + ["driver-died"] + run_driver(cases[k + 1:], budget)
     return lines
 
 
@@ -501,6 +516,10 @@ def main():
                 if len(samples) < 6 and evaluations % 97 == 1:
                     samples.append({"stream": name, "case": c[:600], "rust": r[:200], "model": m[:300]})
                 if r.startswith("skip") or mo.startswith("skip"):
+                    continue
+                if r == "timeout" and mo == "driver-timeout":
+                    # code and model both need longer than the case time limit: the work is what the
+                    # configured limits allow (the model's is proved bounded by them), not a hang
                     continue
                 problem = None
                 if mo.startswith("bad-case") or r.startswith("bad-case") or mo == "driver-died":
